@@ -148,7 +148,14 @@ func runQueueStress(p stressProg) J {
 		status = "hang"
 	}
 	close(stop)
-	wgO.Wait()
+	// the observers may themselves be stuck inside the queue when its lock discipline is broken
+	obsDone := make(chan struct{})
+	go func() { wgO.Wait(); close(obsDone) }()
+	select {
+	case <-obsDone:
+	case <-time.After(5 * time.Second):
+		status = "hang"
+	}
 	mu.Lock()
 	defer mu.Unlock()
 	if status == "hang" {
@@ -164,7 +171,8 @@ func runC04stress(tier string, seed int64, out *Out) {
 	if tier == "thorough" {
 		n = 1500
 	}
-	for i := 0; i < n; i++ {
+	stuck := 0
+	for i := 0; i < n && stuck < 3; i++ {
 		p := stressProg{Mode: "live", Cap: 1 + r.Intn(4), Producers: 1 + r.Intn(4), Values: 1 + r.Intn(60), Consumers: 1 + r.Intn(4), Observers: r.Intn(3)}
 		if i%4 == 3 {
 			p = stressProg{Mode: "drain", Values: 2 + r.Intn(60), Consumers: 2 + r.Intn(5)}
@@ -173,7 +181,11 @@ func runC04stress(tier string, seed int64, out *Out) {
 				p.Cap = 16
 			}
 		}
-		out.emit(runQueueStress(p))
+		line := runQueueStress(p)
+		if line["status"] == "hang" {
+			stuck++ // three stuck programs settle the verdict; abandoned goroutines would only pile up
+		}
+		out.emit(line)
 	}
 }
 
